@@ -4,6 +4,7 @@ import (
 	"fmt"
 	"math"
 	"regexp"
+	"time"
 
 	"github.com/sahandsafizadeh/qeep/component/initializers"
 	"github.com/sahandsafizadeh/qeep/component/layers"
@@ -525,6 +526,12 @@ func runC09(c *fw.Ctx) {
 
 	// ---------- components ----------
 	c.Case(func(k *fw.K) { c09Initializers(k) })
+	// "never ... hanging": BackPropagate over DEEP graphs whose every block reads its input twice (residual blocks, gates) - the
+	// number of paths doubles per block while the graph grows by two nodes; the work is bounded in CPU time (see fw.CPUGuard)
+	for _, blocks := range []int{24, 40, 48, 64, 96} {
+		blocks := blocks
+		c.Case(func(k *fw.K) { c09DeepDiamonds(k, blocks) })
+	}
 	c.Case(func(k *fw.K) { c09Layers(k, pool) })
 	c.Case(func(k *fw.K) { c09LossesMetricsOptim(k, pool) })
 }
@@ -1200,6 +1207,45 @@ func c09LossesMetricsOptim(k *fw.K, pool [][]int) {
 		upd("after-reset", &reset, false)
 		var f tensor.Tensor = foreign{}
 		upd("foreign-without-gradient", &f, false)
+	}
+}
+
+func c09DeepDiamonds(k *fw.K, blocks int) {
+	shape := [][]int{{}, {3}, {2, 2}}[k.Rng.Intn(3)]
+	variant := k.Rng.Intn(3)
+	k.Case = map[string]any{"entry": "BackPropagate", "graph": "chain of blocks that read their input twice", "blocks": blocks, "shape": shape, "variant": variant}
+	k.Key("deep-diamonds/%d/%d/%s", blocks, variant, shapeKey(shape))
+	k.Count("calls", 1)
+	x := rt.MustLeaf(Shuffled(k.Rng, Unique(k.Rng, shape, 0.2, 0.9)), true)
+	var err error
+	var pn any
+	k.CPUGuard(20*time.Second, fmt.Sprintf("BackPropagate over a chain of %d blocks that each read their input twice", blocks), func() {
+		pn = call(func() {
+			h := x
+			for b := 0; b < blocks && err == nil; b++ {
+				switch variant {
+				case 0:
+					h, err = h.Add(h.Scale(0.5)) // residual block
+				case 1:
+					h, err = h.Mul(h.Tanh()) // gate
+				default:
+					var s tensor.Tensor
+					if s, err = h.Sub(h.Scale(0.25)); err == nil {
+						h, err = s.ElMax(h.Scale(0.5))
+					}
+				}
+			}
+			if err == nil {
+				err = tensor.BackPropagate(h)
+			}
+		})
+	})
+	if pn != nil || err != nil {
+		k.Failf("BackPropagate over a chain of %d blocks (variant %d, shape %v): panic=%v err=%v", blocks, variant, shape, pn, err)
+		return
+	}
+	if x.Gradient() == nil {
+		k.Failf("BackPropagate over a chain of %d blocks (variant %d, shape %v) left the tracked leaf without a gradient", blocks, variant, shape)
 	}
 }
 
